@@ -20,10 +20,15 @@ first_missed = {
  'C13-d': 'the act_on dispatch menu had no general multi-qubit CliffordGate; obligation tableau.act_on_clifford_gate (every ordered choice of axes incl. no spectator qubit, symbolic sign bits) added afterwards',
  'C16-a': 'program (de)serialization was outside the first (bit-packing only) C16 claim; the message part (pure-Python protobuf backend with symbolic scalars, checks/C16_msgs.py) was built afterwards; NOT blind: it was specified after this seed had been seen (DESIGN 9.5)',
  'C16-b': 'sweep (de)serialization was outside the first C16 claim; message part built afterwards; NOT blind (DESIGN 9.5)',
+ 'C01-c': 'parameter sweeps were not exercised by the first version; obligation simulate_sweep (two resolvers with symbolic values, SWAP/ISWAP in the parameterized suffix, split on/off) added afterwards',
+ 'C01-d': 'in the quick tier two-operation shapes ran simulate_moment_steps with split_untangled_states only from a symbolic state object (which bypasses the product-state container); configuration (moment steps, split, basis state) added to the quick tier afterwards (the thorough tier already had it)',
+ 'C08-c': 'equality was only checked between gates; obligation equality.controlled_operations (10 control-value objects incl. correlated SumOfProducts, both control listings, symbolic exponent) added afterwards',
+ 'C08-d': 'equality predicates were only checked between gates; obligation equality.operations_qubit_order (operations on every pair of qubit orders, ==, approx_eq, equal_up_to_global_phase) added afterwards',
  'C19-b': 'the concrete KAK fall-back menu only had gates with interaction (x,0,0); matrix-only gates with generic coefficients added afterwards',
 }
 still = {
  'C08-a': 'trace_distance_bound is outside the C08 claim (eigenvalue angles / arccos; the ControlledOperation path goes through LAPACK)',
+ 'C04-c': 'MatrixGate on three qubits decomposes through three_qubit_matrix_to_operations (cosine-sine decomposition, LAPACK): no symbolic matrix can pass, outside the C04 claim',
  'C15-b': 'three-qubit synthesis (CS decomposition, LAPACK) is outside the narrow C15 claim',
 }
 rows = []
